@@ -131,15 +131,15 @@ func c01Shape(c *c01Case) string {
 	eq = len(seen) == 1
 	s := c.Variant
 	if c.Down != nil {
-		s += ",some-ineligible"
+		s += ":some-ineligible"
 	}
 	switch {
 	case eq:
-		s += ",equal-weights"
+		s += ":equal-weights"
 	case dup:
-		s += ",dup-weights"
+		s += ":dup-weights"
 	default:
-		s += ",distinct-weights"
+		s += ":distinct-weights"
 	}
 	return s
 }
@@ -208,10 +208,6 @@ func c01Check(r *vkit.Run, c *c01Case, g *vkit.Rand) {
 	desc := func() interface{} { return c }
 	var seq []int
 	var err error
-	ident := make([]int, len(c.Weights))
-	for i := range ident {
-		ident[i] = i
-	}
 	switch c.Variant {
 	case "init":
 		var seq2 []int
